@@ -145,3 +145,21 @@ ROUND3 += [
          "        _fix_class_name_duplicates(nested_generators, used)\n"),
     ]),
 ]
+
+ROUND3 += [
+    ("label_nfkc_negated_test", "the normalisation branch is written with the negated test first", [
+        (J + "models/base.py",
+         "    if convert_unicode:\n        s = unidecode(s)\n    else:\n"
+         "        # Python normalizes identifiers (NFKC) but not the strings that name them (aliases, converter paths)\n"
+         "        s = unicodedata.normalize(\"NFKC\", s)\n",
+         "    if not convert_unicode:\n        s = unicodedata.normalize(\"NFKC\", s)\n    else:\n        s = unidecode(s)\n"),
+    ]),
+    ("label_underscores_while", "leading underscores are moved one at a time", [
+        (J + "models/base.py",
+         "    head = len(s) - len(s.lstrip(\"_\"))\n    s = s[head:] + s[:head]\n",
+         "    while s.startswith('_') and s.strip(\"_\"):\n        s = s[1:] + \"_\"\n"),
+    ]),
+    ("label_empty_len_guard", "the digit test is guarded by an explicit length test", [
+        (J + "models/base.py", "    if s and '0' <= s[0] <= '9':\n", "    if len(s) > 0 and '0' <= s[0] <= '9':\n"),
+    ]),
+]
